@@ -289,6 +289,13 @@ class Gen:
                     return sel
                 left = pick(assoc['leftAsset'], assoc['leftMultiplicity']['max'])
                 right = pick(assoc['rightAsset'], assoc['rightMultiplicity']['max'])
+                same = [l for l in self.live_l if self.links[l][0] == cls]
+                if same and r.random() < 0.15:
+                    # the mirror image of a live link of this association (a -> b, then b -> a), where the types allow it
+                    _, L0, R0 = self.links[r.choice(same)]
+                    if L0 and R0 and all(assoc['leftAsset'] in self.anc(self.type[a]) for a in R0) and all(assoc['rightAsset'] in self.anc(self.type[a]) for a in L0) \
+                            and all(a in self.live_a for a in L0 + R0):
+                        left, right = list(R0), list(L0)
                 if (not left or not right) and any(self.links[l] == (cls, list(left), list(right)) for l in self.live_l):
                     # two value-equal associations can only coexist when one side is empty (no pair to collide on);
                     # pjs compares by value, so `remove_association` then takes the first equal one: the two objects
